@@ -131,6 +131,11 @@ class Parser:
                 self.pos += 1
                 rule_doc.append(self.eat(TokenKind.COMMENT_TEXT).value)
 
+            if self.current().kind == TokenKind.EOI:
+                # pest: grammar_rule = { ... | line_doc }. Trailing documentation
+                # comments are valid and belong to no rule.
+                break
+
             identifier = self.eat(TokenKind.IDENTIFIER)
             self.eat(TokenKind.ASSIGN_OP)
             modifier = self.parse_modifier()
